@@ -692,6 +692,50 @@ def fft_route_items(g, ft, pr):
            f'def padLo (n N : Int) : Int := N / 2 - n / 2\ndef padHi (n N : Int) : Int := N / 2 - n / 2 + n\n'
            'def padOutLen (n Q : Rat) : Rat := ((Rat.ceil (n * Q) : Int) : Rat)')
 
+    # ---- purity of the entry points: the array argument is never written to
+    def writes_input(fn):
+        """list of constructs that write to (or let a library write to) the caller's array: an augmented assignment or a subscript
+        store on the array parameter while it still names the caller's object, `out=<param>`, `overwrite_x=True`"""
+        args = [a.arg for a in fn.args.args if a.arg != 'self']
+        if not args:
+            return []
+        p0 = args[0]
+        found = []
+        rebound = False
+        for st in fn.body:           # top-level order: an unconditional plain re-assignment ends the aliasing
+            for node in ast.walk(st):
+                if isinstance(node, ast.AugAssign) and not rebound:
+                    t = node.target
+                    if (isinstance(t, ast.Name) and t.id == p0) or \
+                            (isinstance(t, ast.Subscript) and isinstance(t.value, ast.Name) and t.value.id == p0):
+                        found.append(u(node)[:60])
+                if isinstance(node, ast.Assign) and not rebound:
+                    for t in node.targets:
+                        if isinstance(t, ast.Subscript) and isinstance(t.value, ast.Name) and t.value.id == p0:
+                            found.append(u(node)[:60])
+                if isinstance(node, ast.Call):
+                    for k in node.keywords:
+                        if k.arg == 'out' and isinstance(k.value, ast.Name) and k.value.id == p0 and not rebound:
+                            found.append(u(node)[:60])
+                        if k.arg in ('overwrite_x', 'overwrite_input') and not (isinstance(k.value, ast.Constant) and k.value.value is False):
+                            found.append(u(node)[:60])
+            if isinstance(st, ast.Assign) and any(isinstance(t, ast.Name) and t.id == p0 for t in st.targets):
+                rebound = True
+        return found
+
+    def purity(mod, names):
+        def check():
+            bad = []
+            for nm in names:
+                bad += [f'{nm}: {x}' for x in writes_input(get_def(mod, nm))]
+            return not bad
+        return check
+    g.fact('fttoolsEntryPointsDoNotWriteInputs', 'prysm/fttools.py:pad2d, dft2, idft2, czt2, iczt2',
+           purity(ft, ['pad2d', 'crop_center', 'MatrixDFTExecutor.dft2', 'MatrixDFTExecutor.idft2',
+                       'ChirpZTransformExecutor.czt2', 'ChirpZTransformExecutor.iczt2']))
+    g.fact('propagationEntryPointsDoNotWriteInputs', 'prysm/propagation.py:focus, unfocus, *_fixed_sampling, angular_spectrum',
+           purity(pr, ['focus', 'unfocus', 'focus_fixed_sampling', 'unfocus_fixed_sampling', 'angular_spectrum']))
+
     def route(name):
         def build():
             fn = get_def(pr, name)
